@@ -85,6 +85,18 @@ func Distinct(id string, fp uint64, labels ...string) {
 	}
 }
 
+// Enumerated records n evaluated cases that are distinct and non-trivial by construction
+// (exhaustive enumerations: every index of the enumeration is a different case).
+func Enumerated(id string, n int64, label string) {
+	mu.Lock()
+	defer mu.Unlock()
+	c := get(id)
+	c.Evaluations += n
+	c.Nontrivial += n
+	c.Notes["distinct_by_construction"] += n
+	c.Labels[label] += n
+}
+
 // Eval counts evaluations without fingerprint.
 func Eval(id string, n int64) {
 	mu.Lock()
